@@ -1257,7 +1257,7 @@ R10A = [1,1,0,0,1, 1,1,1,0,0, 0,1,1,1,0, 0,0,1,1,1, 1,0,0,1,1]
 R10B = [1,1,1,1,1, 1,1,1,0,0, 1,0,1,1,0, 1,0,0,1,1, 1,1,0,0,1]
 R10T = [1,-1,0,0,-1, -1,1,-1,0,0, 0,-1,1,-1,0, 0,0,-1,1,-1, -1,0,0,-1,1]
 R12T = [1,0,1,1,0,0, 0,1,1,1,0,0, 1,0,1,0,1,1, 0,-1,0,-1,1,1, 1,0,1,0,1,0, 0,-1,0,-1,0,1]
-C04_TAGS = r"^tree:(flag|flags|graph-cert|r10|minor)"
+C04_TAGS = r"^tree:(flag|flags|graph-cert|r10|minor|root-graphicness|root-cographicness)"
 
 
 def permuted(rng, m, n, e):
